@@ -15,7 +15,7 @@ func init() {
 	register(&Property{
 		ID:        "C09",
 		Technique: "static analysis: read-your-writes rule over the package-local call graph (loops over a command's elements that read committed state, write the batch and count must de-duplicate the element), guard implication by truth table (meta deleted iff size <= 0), FOLLOW pairing of the two sorted-set indexes",
-		Explanation: "Decides three structural conditions of 'stored size = number of stored elements': (N1) in package rockredis every loop over a slice parameter of a write command whose body (through same-package callees) both reads committed state and writes the batch, and which updates a counter that flows into *IncrSize / IncrTableKeyCount or the reply, de-duplicates the element first (reads do not see the uncommitted batch, so a member repeated inside one command is otherwise counted twice); (N2) the size meta key is deleted exactly when the size reaches zero and the table key counter moves only on the empty<->non-empty transitions; (N3) the member->score and score->member keys of a sorted set are written and deleted together and a score change deletes the old score key. (N6) index clamps: for every `if x REL B { x = E }` on integers in package rockredis with E in {B-1, B, B+1}, no value that passes the test lies beyond E (a clamp `if stop > llen { stop = llen-1 }` lets stop == llen through). N5 also rejects a range whose start and stop are the same key (empty range).",
+		Explanation: "Decides three structural conditions of 'stored size = number of stored elements': (N1) in package rockredis every loop over a slice parameter of a write command whose body (through same-package callees) both reads committed state and writes the batch, and which updates a counter that flows into *IncrSize / IncrTableKeyCount or the reply, de-duplicates the element first (reads do not see the uncommitted batch, so a member repeated inside one command is otherwise counted twice); (N2) the size meta key is deleted exactly when the size reaches zero and the table key counter moves only on the empty<->non-empty transitions; (N3) the member->score and score->member keys of a sorted set are written and deleted together and a score change deletes the old score key. (N6) index clamps: for every `if x REL B { x = E }` on integers in package rockredis with E in {B-1, B, B+1}, no value that passes the test lies beyond E (a clamp `if stop > llen { stop = llen-1 }` lets stop == llen through). N5 also rejects a range whose start and stop are the same key (empty range). (N7) an element is added only under a version key obtained from prepareCollKeyForWrite; (N8) LTRIM deletes no key that is the exclusive end of one of its range deletes.",
 		NotDecided: "agreement of the different enumeration commands with each other (iterator behaviour), list head/tail arithmetic, numeric correctness of the counts, failed commands inside one apply batch (C11-A3).",
 		Assumptions: []string{"the de-duplication idiom is recognised by shape (a map keyed by the element with membership test and insertion, in the loop or in a helper applied to the slice before the loop)", "callees are resolved statically within package rockredis"},
 		Run: runC09,
